@@ -265,8 +265,23 @@ pub fn simulate(c: &Case, choices: &[u8]) -> Result<RunStats, CaseFail> {
                 let b = c.behaviour[i as usize];
                 if b == 1 || b == 2 {
                     failures += 1;
-                    engine.register_response_failure(qid, p);
+                    // the ways Kademlia reports a failed peer to the engine: a dial / substream-open failure or a closed
+                    // connection (send failure + response failure, directly or through register_peer_failure), or a request
+                    // that was written and then failed to be answered (send success, then response failure)
+                    match (c.base as usize + i as usize) % 3 {
+                        0 => {
+                            engine.register_send_failure(qid, p);
+                            engine.register_response_failure(qid, p);
+                        }
+                        1 => engine.register_peer_failure(qid, p),
+                        _ => {
+                            engine.register_send_success(qid, p);
+                            engine.register_response_failure(qid, p);
+                        }
+                    }
                 } else {
+                    // the request was written before its answer arrives
+                    engine.register_send_success(qid, p);
                     let mut returned: Vec<KademliaPeer> = Vec::new();
                     for j in &c.knows[i as usize] {
                         if *j == LOCAL {
